@@ -166,7 +166,7 @@ pub fn find_naf(num: &[u64]) -> Vec<i8> {
     let add_nocarry = |num: &mut [u64], z: u64| {
         num.iter_mut()
             .zip(ark_std::iter::once(z).chain(ark_std::iter::repeat(0)))
-            .fold(0, |carry, (a, b)| adc(a, b, carry));
+            .fold(0, |carry, (a, b)| adc(a, b, carry))
     };
     // Perform an in-place division of the number by 2
     let div2 = |num: &mut [u64]| {
@@ -180,12 +180,13 @@ pub fn find_naf(num: &[u64]) -> Vec<i8> {
     // Main loop for NAF computation
     while is_non_zero(&num) {
         // Determine the current digit of the NAF representation
+        let mut carry = 0;
         let z = if is_odd(&num) {
             let z = 2 - (num[0] % 4) as i8;
             if z >= 0 {
                 sub_noborrow(&mut num, z as u64);
             } else {
-                add_nocarry(&mut num, (-z) as u64);
+                carry = add_nocarry(&mut num, (-z) as u64);
             }
             z
         } else {
@@ -196,6 +197,11 @@ pub fn find_naf(num: &[u64]) -> Vec<i8> {
         res.push(z);
         // Divide the number by 2 for the next iteration
         div2(&mut num);
+        if carry != 0 {
+            // the addition overflowed the slice: the lost bit re-enters as the
+            // top bit after the halving
+            *num.last_mut().unwrap() |= 1 << 63;
+        }
     }
 
     res
